@@ -62,6 +62,18 @@ CHECKS = {
         ref="4 C18", technique="Coq proof (resolution/stack invariants, symbolic checker with soundness proof over generated signatures) + dumped signatures (T) + vm_compute trace correspondence",
         note=TB + " Method bodies are modelled on the path taken against a fake machine where every command succeeds; failure/"
              "retry paths are judged by the oracle only."),
+    "C08": dict(
+        text="Universal theorems over every reachable state of a Gallina model of BitField (any history of add_field / "
+             "value assignment / assign_fields): co-present fields never overlap and stay inside the bit field, fields are "
+             "wide enough for every accepted value, value read-back, mask = union of present fields (also per tag, tags closed "
+             "under requirements), distinct complete assignments give non-intersecting key/mask pairs, explicit overlapping / "
+             "overflowing / zero-length definitions are rejected; completeness proved under the boolean guard "
+             "`exclusive_children` (includes every flat bit field) and REFUTED without it (two known findings) and for the code "
+             "as found (off-by-one scan, negative start). A verified checker (soundness proved) is evaluated in Coq on the "
+             "layout extracted from the real object after every history; exact correspondence of every return value and "
+             "exception class; independent brute-force oracle over all consistent value assignments.",
+        ref="4 C08", technique="Coq proof (reachability invariant over op histories, verified layout checker) + vm_compute correspondence on histories",
+        note=TB + " Auto-length float formula int(log(v,2))+1 is modelled as bit length (values < 2^47); checked never narrower by correspondence."),
 }
 NOT_YET = {}
 def main():
